@@ -28,14 +28,20 @@ META = {
 }
 
 
-def ob_angular_exact(name, n):
-    """symmetric; diagonal argument = 1 when sin^2+cos^2 = 1; value = clamped spherical cosine formula"""
+def ob_angular_exact(name, n, trig=True):
+    """symmetric; diagonal argument = 1 when sin^2+cos^2 = 1; value = clamped spherical cosine formula.
+    trig=False: the four inputs are arbitrary reals in [-1, 1] (what rounded float32 sines/cosines are), so the
+    unclamped expression can leave [-1, 1] on both sides and the two-sided clamp is exercised"""
     mod = kern.module(CO)
     fn = "_calculate_angular_distance"
     cl, sl, co, so = (kern.sym_real_arr((n,), p) for p in ("cl", "sl", "co", "so"))
     hyps = []
     for i in range(n):
-        hyps += [cl.data[i] * cl.data[i] + sl.data[i] * sl.data[i] == 1, co.data[i] * co.data[i] + so.data[i] * so.data[i] == 1]
+        if trig:
+            hyps += [cl.data[i] * cl.data[i] + sl.data[i] * sl.data[i] == 1, co.data[i] * co.data[i] + so.data[i] * so.data[i] == 1]
+        else:
+            for a in (cl, sl, co, so):
+                hyps += [a.data[i] >= -1, a.data[i] <= 1]
     out = Arr.full((n, n), kern.UNDEF, "float32")
     run = Run(mod, loop_bound=n + 1, hyps=hyps)
     run.call(fn, [cl, sl, co, so, out, n])
@@ -51,11 +57,12 @@ def ob_angular_exact(name, n):
             bad.append(ne(v, spec))
             bad.append(ne(v, out.get(j, i)))
             bad.append(or_(gt(v, 1), lt(v, -1)))
-        bad.append(ne(out.get(i, i), 1))
+        if trig:
+            bad.append(ne(out.get(i, i), 1))
 
     def wit(m):
         return {"kind": "angular", "cos_lat": mv_arr(m, cl), "sin_lat": mv_arr(m, sl), "cos_lon": mv_arr(m, co), "sin_lon": mv_arr(m, so)}
-    return decide(name, hyps + run.assumptions, bad, [mod.func_info(fn)], f"N={n}, reals with sin^2+cos^2=1",
+    return decide(name, hyps + run.assumptions, bad, [mod.func_info(fn)], f"N={n}, reals with sin^2+cos^2=1" if trig else f"N={n}, arbitrary reals in [-1,1]",
                   "C12|_calculate_angular_distance|clamped-cosine-formula", wit, timeout=120)
 
 
@@ -237,8 +244,10 @@ def prepare(tier):
 def obligations(tier):
     th = tier == "thorough"
     obs = []
-    for n in ((1, 2, 3) if not th else (1, 2, 3, 4)):
-        obs.append((ob_angular_exact, dict(name=f"C12|_calculate_angular_distance|exact|N={n}", n=n), 900))
+    for n in ((1, 2) if not th else (1, 2, 3)):
+        obs.append((ob_angular_exact, dict(name=f"C12|_calculate_angular_distance|exact|N={n}", n=n), 1800))
+    for n in (1, 2):
+        obs.append((ob_angular_exact, dict(name=f"C12|_calculate_angular_distance|two-sided clamp|N={n}", n=n, trig=False), 900))
     obs.append((ob_angular_clamp_fp, dict(name="C12|_calculate_angular_distance|ieee-clamp|N=2"), 1500))
     for (n, d) in ((2, 1), (2, 2), (3, 1), (3, 2)) + (((3, 3), (4, 2)) if th else ()):
         obs.append((ob_euclid, dict(name=f"C12|_calculate_euclidean_distance|n={n},dim={d}", n=n, dim=d), 1200))
